@@ -364,13 +364,20 @@ impl TransactionCoordinator {
             .collect()
     }
 
-    /// Create a snapshot of the database state for a given transaction id.
-    pub fn snapshot(&self, txid: TransactionId) -> TransactionResult<Snapshot> {
-        // Collect active transaction ids
-        let active: HashSet<TransactionId> = self.transaction_set(TransactionState::Active);
-
-        // Collect tracked aborted transaction ids
-        let aborted: HashSet<TransactionId> = self.transaction_set(TransactionState::Aborted);
+    /// Snapshot for `txid` computed from the (locked) transaction table.
+    fn snapshot_of(
+        &self,
+        txs: &HashMap<TransactionId, TransactionMetadata>,
+        txid: TransactionId,
+    ) -> Snapshot {
+        let ids_in = |state: TransactionState| -> HashSet<TransactionId> {
+            txs.iter()
+                .filter(|(_, entry)| entry.state() == state)
+                .map(|(id, _)| *id)
+                .collect()
+        };
+        let active = ids_in(TransactionState::Active);
+        let aborted = ids_in(TransactionState::Aborted);
 
         // xmin is the smallest active transaction ID (or our ID if none active)
         let xmin = active.iter().min().copied().unwrap_or(txid);
@@ -380,13 +387,25 @@ impl TransactionCoordinator {
         // committed before the snapshot, including transactions that begin (and commit) after it was taken.
         let xmax = Some(self.get_last_committed());
 
-        Ok(Snapshot::new(txid, xmin, xmax, active, aborted))
+        Snapshot::new(txid, xmin, xmax, active, aborted)
+    }
+
+    /// Create a snapshot of the database state for a given transaction id.
+    pub fn snapshot(&self, txid: TransactionId) -> TransactionResult<Snapshot> {
+        let txs = self.transactions.read();
+        Ok(self.snapshot_of(&txs, txid))
     }
 
     /// Begin a new transaction.
     /// Returns a [TransactionHandle] to the thread that requested the begin operation.
     pub fn begin(&self) -> TransactionResult<TransactionHandle> {
-        // Atomically get and increment the transaction ID in PageZero
+        // Id allocation, snapshot and registration are ONE step with respect to every other `begin` and to every
+        // state change (commit and abort take the same lock). Otherwise a transaction that has its id but is not
+        // registered yet is missing from the active set of a snapshot taken in between, and that snapshot reads
+        // its uncommitted rows as soon as a younger transaction has committed.
+        let mut txs = self.transactions.write();
+
+        // Get and increment the transaction ID in PageZero
         let txid = {
             let mut pager = self.pager.write();
             let current = pager.get_last_created_transaction();
@@ -394,17 +413,15 @@ impl TransactionCoordinator {
             current
         };
 
-        // Create snapshot
-        let snapshot = self.snapshot(txid)?;
+        let snapshot = self.snapshot_of(&txs, txid);
 
         let start_ts = self.commit_counter.load(Ordering::SeqCst);
 
-        // Insert new transaction entry
-        {
-            let mut txs = self.transactions.write();
-            let entry = TransactionMetadata::new(txid, snapshot.clone(), start_ts);
-            txs.insert(txid, entry);
-        }
+        txs.insert(
+            txid,
+            TransactionMetadata::new(txid, snapshot.clone(), start_ts),
+        );
+        drop(txs);
 
         Ok(TransactionHandle {
             id: txid,
